@@ -59,6 +59,13 @@ func (q PathQuery) FindPath() []ssa.Instruction {
 		n := queue[0]
 		queue = queue[1:]
 		if n.i >= len(n.b.Instrs) {
+			// a start placed after the last instruction of its block: continue with the successors
+			for si, sb := range n.b.Succs {
+				if q.EdgeOK != nil && !q.EdgeOK(n.b, si) {
+					continue
+				}
+				push(node{sb, 0}, n)
+			}
 			continue
 		}
 		ins := n.b.Instrs[n.i]
@@ -69,7 +76,9 @@ func (q PathQuery) FindPath() []ssa.Instruction {
 			// reconstruct
 			var path []ssa.Instruction
 			for cur := n; cur.b != nil; cur = prev[cur] {
-				path = append(path, cur.b.Instrs[cur.i])
+				if cur.i < len(cur.b.Instrs) {
+					path = append(path, cur.b.Instrs[cur.i])
+				}
 			}
 			for l, r := 0, len(path)-1; l < r; l, r = l+1, r-1 {
 				path[l], path[r] = path[r], path[l]
@@ -177,8 +186,10 @@ func (m *MustDo) Instr(ins ssa.Instruction) bool {
 		return true
 	}
 	switch x := ins.(type) {
-	case *ssa.Call:
-		cs := m.P.Callees(x)
+	case *ssa.Call, *ssa.Defer:
+		// a deferred call runs before the function returns: for "… happens before the return" queries the defer
+		// statement is as good as the call
+		cs := m.P.Callees(x.(ssa.CallInstruction))
 		if len(cs) == 0 {
 			return false
 		}
@@ -271,28 +282,98 @@ func mayBeNilError(v ssa.Value, seen map[ssa.Value]bool) bool {
 
 // definitelyNonNilAt: v was tested non-nil on every path to ins (ins is dominated by the non-nil edge of a test of v).
 func definitelyNonNilAt(v ssa.Value, at ssa.Instruction) bool {
-	for _, ref := range *v.Referrers() {
-		bo, ok := ref.(*ssa.BinOp)
-		if !ok {
+	for _, a := range cellAliases(v) {
+		refs := a.Referrers()
+		if refs == nil {
 			continue
 		}
-		for _, r2 := range *bo.Referrers() {
-			iff, ok := r2.(*ssa.If)
+		for _, ref := range *refs {
+			bo, ok := ref.(*ssa.BinOp)
 			if !ok {
 				continue
 			}
-			tv, nilSucc, ok := nilTestCond(iff.Cond)
-			if !ok || tv != v {
-				continue
-			}
-			nonNil := iff.Block().Succs[1-nilSucc]
-			// the edge must be the only way into nonNil for dominance to imply the test
-			if len(nonNil.Preds) == 1 && nonNil != iff.Block().Succs[nilSucc] && (nonNil == at.Block() || nonNil.Dominates(at.Block())) {
-				return true
+			for _, r2 := range *bo.Referrers() {
+				iff, ok := r2.(*ssa.If)
+				if !ok {
+					continue
+				}
+				tv, nilSucc, ok := nilTestCond(iff.Cond)
+				if !ok || tv != a {
+					continue
+				}
+				nonNil := iff.Block().Succs[1-nilSucc]
+				// the edge must be the only way into nonNil for dominance to imply the test
+				if len(nonNil.Preds) == 1 && nonNil != iff.Block().Succs[nilSucc] && (nonNil == at.Block() || nonNil.Dominates(at.Block())) {
+					return true
+				}
 			}
 		}
 	}
 	return false
+}
+
+// cellAliases: v and the loads of local cells into which v was stored (an error variable that is captured by a deferred
+// closure, or a named result, lives in a cell: `*cell = v; t = *cell; if t != nil`). A load counts when the store of v
+// dominates it and no other store to the cell lies between them on the dominator path (approximated: the store is the
+// last one to the cell that dominates the load).
+func cellAliases(v ssa.Value) []ssa.Value {
+	out := []ssa.Value{v}
+	seen := map[ssa.Value]bool{v: true}
+	add := func(x ssa.Value) {
+		if x != nil && !seen[x] {
+			seen[x] = true
+			out = append(out, x)
+		}
+	}
+	storesTo := func(al *ssa.Alloc) []*ssa.Store {
+		var ss []*ssa.Store
+		for _, r := range *al.Referrers() {
+			if s2, ok := r.(*ssa.Store); ok && s2.Addr == al {
+				ss = append(ss, s2)
+			}
+		}
+		return ss
+	}
+	// the store whose value a load of the cell sees: the latest store dominating it
+	reaching := func(al *ssa.Alloc, ld ssa.Instruction) *ssa.Store {
+		var best *ssa.Store
+		for _, s2 := range storesTo(al) {
+			if dominatesInstr(s2, ld) && (best == nil || dominatesInstr(best, s2)) {
+				best = s2
+			}
+		}
+		return best
+	}
+	loadsSeeing := func(al *ssa.Alloc, st *ssa.Store) {
+		for _, r := range *al.Referrers() {
+			if ld, ok := r.(*ssa.UnOp); ok && ld.X == al && reaching(al, ld) == st {
+				add(ld)
+			}
+		}
+	}
+	for i := 0; i < len(out) && i < 16; i++ {
+		x := out[i]
+		// x is a load of a cell: the stored value and the other loads seeing the same store are the same value
+		if ld, ok := x.(*ssa.UnOp); ok {
+			if al, ok := ld.X.(*ssa.Alloc); ok {
+				if st := reaching(al, ld); st != nil {
+					add(st.Val)
+					loadsSeeing(al, st)
+				}
+			}
+		}
+		// x is stored into a cell: the loads seeing that store
+		if refs := x.Referrers(); refs != nil {
+			for _, ref := range *refs {
+				if st, ok := ref.(*ssa.Store); ok && st.Val == x {
+					if al, ok := st.Addr.(*ssa.Alloc); ok {
+						loadsSeeing(al, st)
+					}
+				}
+			}
+		}
+	}
+	return out
 }
 
 // retOperand resolves the i-th result of a return through the result cell go/ssa uses in functions with defer
